@@ -19,7 +19,8 @@
 From Coq Require Import List Arith Bool String QArith.
 From stdpp Require Import gmap.
 From RC Require Import Base.Res Base.Num Model.Search Model.SearchSpec Model.SearchRun
-  Proofs.SearchTree Proofs.SearchInv Proofs.SearchBacktrack Proofs.SearchRoute Proofs.SearchCheck Proofs.SearchQ.
+  Proofs.SearchTree Proofs.SearchInv Proofs.SearchBacktrack Proofs.SearchRoute Proofs.SearchCheck Proofs.SearchQ
+  Proofs.SearchRunQ.
 Import ListNotations.
 Import Search SearchSpec.
 
@@ -164,6 +165,14 @@ Proof.
   exact (traverse_inflationary w).
 Qed.
 
+(* the M line meets the S line: over exact rationals every Ok outcome of the table-driven model (any world: graph,
+   cost / heuristic / turn / frontier tables, termination model; any query: algorithm, weight factor, direction,
+   orientation, endpoints) is accepted by [SR.check_outcome], the function the correspondence stream evaluates on
+   the implementation's output *)
+Theorem c01_model_outcome_accepted : forall (w : SR.world QN) (q : SR.query QN) fuel r,
+    SR.run QN fuel w q = Ok r -> SR.check_outcome QN w q (SR.outcome_of QN (Ok r)) = None.
+Proof. exact model_outcome_accepted. Qed.
+
 (* statement pins: editing a statement above without editing the pin breaks the build *)
 Check @c01_vertex_route_walk : forall (C St : Type) (clt : C -> C -> bool) (cadd : C -> C -> C) (czero : C) (cfloor : C -> C) (g : graph)
   (frontier : nat -> St -> option nat -> res bool) (traverse : dir -> nat -> option nat -> St -> res (C * C * St))
@@ -229,4 +238,5 @@ Print Assumptions c01_check_eroute_spec.
 Print Assumptions c01_check_tree_spec.
 Print Assumptions c01_check_etree_spec.
 Print Assumptions c01_Q_hypotheses.
+Print Assumptions c01_model_outcome_accepted.
 Print Assumptions c01_nonvacuous.
